@@ -8,6 +8,7 @@
 import Stfs.Model.Cut
 import Stfs.Proofs.Frame
 import Stfs.Proofs.Replay
+import Stfs.Gen.Fingerprints
 namespace Stfs.C06
 open Stfs
 
@@ -155,5 +156,15 @@ example :
     (match (cutAt t 0 (8 * 512 + 100)).2 with | .content _ => true | _ => false) = true ∧
     ((rebuildCut {} t (8 * 512 + 100)).1.rows.map (·.name)) = [[], (n!"f")] := by
   decide
+
+-- MIRRORS-BEGIN (maintained by bin/update-mirrors)
+/-- The parts of the model this file's theorems are about were written by hand against these
+    versions of the functions they mirror (fingerprint of each function's comment-free source,
+    regenerated on every run).  When one of them changes, this obligation fails: the change has
+    to be confirmed harmless by the correspondence, or shows up as its failing input. -/
+theorem model_mirrors_source :
+    [(n!"recovery.Index")].map Gen.fingerprintOf =
+    [some 1657455892095054075] := by decide
+-- MIRRORS-END
 
 end Stfs.C06
